@@ -29,6 +29,7 @@ func init() {
 		Gen:       c12Gen,
 		Run:       c12Run,
 		Rule:      "GeneratePrivateKey on seeds of every length 0..300 (all-zero, all-0xff, random contents) for BLS, P-256, secp256k1, each called twice; DecodePrivateKey on edge scalars (1, 2, n-1, n, 0, leading zero bytes) with the public key compared to scalar*G; a case is non-trivial if a key was produced or the input was rejected; distinct by (op, alg, input)",
+		RaceKinds: []string{"keygen-concurrent"},
 		Shard:     25,
 	})
 }
